@@ -27,3 +27,39 @@ class ScriptedProcessMP(mcscript.ScriptedProcess):
         time.sleep(0.0004 * ((k * 7) % 3))      # uneven work, so that the pool's chunks finish out of order now and then
         v = self.values[k]
         return StochasticJumpPath(jump_times=np.array([0.0, 1.0]), diffusion_path=np.array([0.0, v]), jump_path=np.zeros(2))
+
+
+class TaggedProcessMP(ScriptedProcessMP):
+    """wave 8 (audit5a A5): a TWO-dimensional scripted process.  Coordinate 0 of the path is the scripted value the payoff and the
+    controls read, coordinate 1 is the DRAW NUMBER k taken from the shared-memory counter.  With the spot statistics on, row `it` of
+    the spot array is (value, k): the assignment sigma(it) = k is read from the tag column, which no payoff / control / price reads,
+    so the scripted values need not be distinct and the spot VALUE column becomes a compared quantity (model: path(sigma it))
+    instead of the source of sigma.  Works in the single-process loop too (the counter lives in the parent then)."""
+
+    def __init__(self, values, df=1.0):
+        super().__init__(values, df=df, dimension=2)
+        self.model.models = [object(), object()]     # Engine.initialisation asks model.models for densities when dimension > 1: none
+
+    def simulate_one_path(self):
+        from rpylib.montecarlo.path import StochasticJumpPath
+        c = mcscript.MP_COUNTERS[SLOT]
+        with c.get_lock():
+            k = c.value
+            c.value = k + 1
+        time.sleep(0.0004 * ((k * 7) % 3))
+        v = self.values[k]
+        return StochasticJumpPath(jump_times=np.array([0.0, 1.0]), diffusion_path=np.array([[0.0, v], [0.0, float(k)]]),
+                                  jump_path=np.zeros((2, 2)))
+
+
+def first_coordinate(f):
+    """payoff / control function of the scripted value only (coordinate 0 of the tagged 2-d spot)"""
+    return lambda x: f(x[0])
+
+
+def split_tagged_spot(spot, n):
+    """(values column as an (n, 1) array, sigma as a list of ints) or (None, None) when the array is not n x 2 with integral tags"""
+    spot = np.asarray(spot)
+    if spot.shape != (n, 2) or any(float(t) != int(t) or t < 0 for t in spot[:, 1]):
+        return None, None
+    return spot[:, :1].copy(), [int(t) for t in spot[:, 1]]
